@@ -174,3 +174,10 @@ def c03_4(ctx, r):
         raise AnalysisError("C03.4", f"expected both answers (True x{trues}, False x{falses})")
     loops = [n for n in iter_own(fn.node) if isinstance(n, ast.For)]
     r.check(len(loops) == 1 and ctx.src(loops[0].iter) == "self.iter_jobs()", "the scan covers every job", key_of(fn, "scan domain"), fn.loc(), "the all-done scan does not iterate every job")
+
+
+@rule(P, "C03.5", "T2", "a round determines which batches are still active before it collects results", min_obligations=2)
+def c03_5(ctx, r):
+    from .c05 import poll_before_collect
+
+    poll_before_collect(ctx, r, "C03.5")
